@@ -177,7 +177,8 @@ def one(ctx, rng, xr, ops, names):
                 rec.skip(name, "difference of nearly equal moments (cancellation)")
                 continue
         else:
-            ok, det = compare(ra, rb, rtol * (300 if name in ("dspr", "swe", "sw", "gw", "dpspr") else 1),
+            # alpha / gamma are float32 fits around a float32 peak frequency: the summation order changes with the layout
+            ok, det = compare(ra, rb, rtol * (300 if name in ("dspr", "swe", "sw", "gw", "dpspr") else (20 if (f32 and name in ("alpha", "gamma")) else 1)),
                               circ=op.circ, circ_atol=(0.05 if f32 else 1e-6), exact=False)
         if ok:
             rec.ok(name, key, sample={"transform": tdesc})
